@@ -18,6 +18,7 @@ package main
 // with the device id constant throughout.  Observed at the version / uuid files and the advertised c#.
 
 import (
+	"bytes"
 	"context"
 	"encoding/json"
 	"fmt"
@@ -33,6 +34,7 @@ import (
 	"github.com/brutella/hc"
 	"github.com/brutella/hc/accessory"
 	"github.com/brutella/hc/characteristic"
+	"github.com/brutella/hc/db"
 	"github.com/brutella/hc/verifhook"
 
 	"verif/harness/app"
@@ -425,4 +427,81 @@ func killedStarts(r *vf.Run) {
 	r.Floor("killed_starts", int(r.Counter("killed_starts")), n*2)
 	r.Floor("killed_first_starts", int(r.Counter("killed_first_starts")), n/2)
 	r.Floor("kill points", r.DistinctN("kill_point"), 3)
+}
+
+// idLengths: "sf == 1 iff no controller is stored" for controller identifiers of every length 1..100 bytes (HAP identifiers
+// are 36 characters; the stored record of a pairing grows with the identifier, so its size takes every residue modulo
+// whatever block size the storage reads with).  One directory per length: a controller is stored through hc's database,
+// a transport is constructed on the directory (sf must be 0 and the stored pairing must load), the controller is removed,
+// another transport is constructed (sf must be 1).
+func idLengths(r *vf.Run) {
+	type txter interface{ VerifTXT() map[string]string }
+	rnd := r.RandN("c20-idlen", 0)
+	for L := 1; L <= 100; L++ {
+		r.Eval()
+		dir := app.ScratchDir(base, "idlen")
+		func() {
+			defer os.RemoveAll(dir)
+			name := make([]byte, L)
+			for i := range name {
+				name[i] = "abcdefghijklmnopqrstuvwxyzABCDEFGHIJKLMNOPQRSTUVWXYZ0123456789-:"[rnd.Intn(64)]
+			}
+			pk := make([]byte, 32)
+			rnd.Read(pk)
+			fail := func(sig, what string) {
+				r.Violation(sig, fmt.Sprintf("controller identifier of %d bytes: %s", L, what), map[string]interface{}{"identifier": string(name), "identifier_length": L})
+			}
+			sfOf := func(stage string) (string, bool) {
+				var t interface{}
+				var err error
+				if _, pt := vf.Recover(func() {
+					t, err = hc.NewIPTransport(hc.Config{StoragePath: dir, Pin: "00102003", Port: "0"}, sweepAccessory(sweepSpec{N: L, Desc: "idlen"}, false, 0))
+				}); pt != "" || err != nil {
+					fail("idlen:transport-constructor-fails", fmt.Sprintf("%s: NewIPTransport fails: %v %s", stage, err, trimTo(pt, 200)))
+					return "", false
+				}
+				x, ok := t.(txter)
+				if !ok {
+					r.Inconclusive("idLengths: the transport has no VerifTXT hook")
+					return "", false
+				}
+				return x.VerifTXT()["sf"], true
+			}
+			// the first construction creates the accessory's own identity
+			if sf, ok := sfOf("empty directory"); !ok {
+				return
+			} else if sf != "1" {
+				fail("sf:unpaired-but-hidden:fresh", fmt.Sprintf("sf=%q on a directory without any controller", sf))
+				return
+			}
+			d, err := db.NewDatabase(dir)
+			if err != nil {
+				r.Inconclusive("idLengths: " + err.Error())
+				return
+			}
+			if err := d.SaveEntity(db.NewEntity(string(name), pk, nil)); err != nil {
+				fail("idlen:controller-cannot-be-stored", err.Error())
+				return
+			}
+			if sf, ok := sfOf("one controller stored"); !ok {
+				return
+			} else if sf != "0" {
+				fail("sf:paired-but-discoverable:identifier-length", fmt.Sprintf("a controller is stored and the accessory advertises sf=%q (discoverable for pairing)", sf))
+				return
+			}
+			if e, err := d.EntityWithName(string(name)); err != nil || !bytes.Equal(e.PublicKey, pk) {
+				fail("idlen:stored-controller-does-not-load", fmt.Sprintf("the stored controller cannot be loaded again: %v", err))
+				return
+			}
+			d.DeleteEntity(db.NewEntity(string(name), nil, nil))
+			if sf, ok := sfOf("controller removed"); !ok {
+				return
+			} else if sf != "1" {
+				fail("sf:unpaired-but-hidden:identifier-length", fmt.Sprintf("the only controller was removed and the accessory advertises sf=%q", sf))
+				return
+			}
+			r.Count("identifier_lengths_held", 1)
+		}()
+	}
+	r.Floor("identifier_lengths_held+violations", int(r.Counter("identifier_lengths_held"))+r.ViolationCount(), 100)
 }
